@@ -166,7 +166,8 @@ func (round *round3) Start() *tss.Error {
 			for c := 0; c <= round.Threshold(); c++ {
 				Vc[c], err = Vc[c].Add(PjVs[c])
 				if err != nil {
-					culprits = append(culprits, Pj)
+					// the sum is the point at infinity: Vc[c] is nil now and must not be used again
+					return round.WrapError(errors.New("adding PjVs[c] to Vc[c] resulted in a point not on the curve"), Pj)
 				}
 			}
 		}
@@ -190,7 +191,8 @@ func (round *round3) Start() *tss.Error {
 				z = modQ.Mul(z, kj)
 				BigXj, err = BigXj.Add(Vc[c].ScalarMult(z))
 				if err != nil {
-					culprits = append(culprits, Pj)
+					// the sum is the point at infinity: BigXj is nil now and must not be used again
+					return round.WrapError(errors.New("adding Vc[c].ScalarMult(z) to BigXj resulted in a point not on the curve"), Pj)
 				}
 			}
 			bigXj[j] = BigXj
